@@ -177,7 +177,7 @@ Proof.
            destruct (get_status_db md5 v (s_ck s) (s_fs s) (s_db s) (l_name t) (s_defs s (l_name t)) false) as [E|[_ E]]; fold g in E; rewrite E.
            ++ apply Hig.
            ++ destruct (N.eqb_spec x (l_name t)) as [->|Hne].
-              ** right. split; [apply remove_same|]. rewrite Eig. exact Ei.
+              ** right. split; [apply remove_same|]. exact Eig.
               ** rewrite remove_other by auto. apply Hig.
     + apply prepend_ok in H. destruct H as [l0 [H _]].
       specialize (IH s l0 d' (fun t' Ht' => Hdef t' (or_intror Ht'))). apply (IH H d0 Hig).
@@ -282,13 +282,13 @@ Proof.
   unfold Runner.select_task. rewrite Hst, Hign, Hbad. simpl.
   destruct (Dispatch.t_dbignore (Dispatch.get_task tasks k)) eqn:Ei; simpl.
   - split; [rewrite <- app_assoc; reflexivity|]. split; [discriminate|]. intros _. apply node_of_set_status.
-  - destruct (g_status (get_status c fs d n df false)) eqn:Es; simpl in Hck; inversion Hck as [Hc]; rewrite <- Hc; simpl.
+  - destruct (g_status (get_status c fs d n df false)) eqn:Es; simpl in Hck; [injection Hck as Hc | injection Hck as Hc | injection Hck as Hc | discriminate]; rewrite <- Hc; simpl.
     + split; [rewrite <- app_assoc; reflexivity|]. split; [discriminate|]. intros _. apply node_of_set_status.
     + destruct (is_nil (Dispatch.t_setup (Dispatch.get_task tasks k))) eqn:Esu; simpl.
       * unfold Runner.get_args. destruct (Dispatch.t_argerr (Dispatch.get_task tasks k)); simpl.
         -- split; [rewrite <- app_assoc; reflexivity|]. split; [discriminate|]. intros X; congruence.
-        -- split; [rewrite app_nil_r; reflexivity|]. split; auto. intros X; congruence.
-      * split; [rewrite app_nil_r; reflexivity|]. split; [discriminate|]. intros X; congruence.
+        -- split; [reflexivity|]. split; auto. intros X; congruence.
+      * split; [rewrite ?app_nil_r; reflexivity|]. split; [discriminate|]. intros X; congruence.
     + split; [rewrite <- !app_assoc; reflexivity|]. split; [discriminate|]. intros _. apply node_of_set_status.
 Qed.
 End Select.
